@@ -316,6 +316,15 @@ def run_property(prop, tier, replay=None, only=None):
         for k, v in r.extra.items():
             if k in ("programs", "disagreements_checked"):
                 coverage[k] = coverage.get(k, 0) + v
+    if spec["level"] == "model_checking":
+        # states: distinct symbolic start states handed to a solver (one per Kani harness, one per machine-code path of an
+        # E-X scenario); transitions: solver-checked obligations over them; traces validated: solver answers or model runs
+        # cross-checked against the real implementation natively (counterexample replays, x86-model validations)
+        coverage["states"] = sum(r.extra.get("paths", 0) or r.queries for r in results)
+        coverage["transitions"] = obligations
+        coverage["traces_validated_against_impl"] = sum(
+            r.extra.get("model_validations", 0) + r.extra.get("disagreements_checked", 0) + r.extra.get("encoder_validation_programs", 0)
+            + len(r.findings) for r in results)
     assumptions = sorted(set(sum((r.assumptions for r in results), [])))
     if not only:  # `--only` is a debugging aid: never let a partial run overwrite the evidence
         write_evidence(prop, tier, spec["level"], coverage, assumptions, wall, len(violations))
